@@ -15,7 +15,8 @@ RULE = ('cases: grammar-generated address texts over every notation (station 0..
         'attributes, str(), _tuple() under both route_aware settings); str() re-parsed; pairs from a pool of equivalent spellings compared '
         'with == both ways and by _tuple(); == against un-coerced arguments; pack/unpack_ip_addr; random and single-character-mutated '
         'strings.  non-trivial = the implementation accepts the input, or the input is a mutated/random string of length >= 1, or a '
-        'range-edge refusal; distinct by (operation, input).')
+        'range-edge refusal; distinct by (operation, input).  direct: distinct constructor calls whose denotation the statement fixes '
+        '(accepted with the denoted fields, or refused), plus distinct ordered pairs of pool objects compared with == / hash / dict.')
 TRUSTED = ['model coq/theories/Addr.v written by hand after pdu.py:32-607 (regex cascade re-expressed as a splitting parser); tie = correspondence',
            'CPython re, int(), socket.inet_aton/inet_ntoa (glibc octal rule), binascii, struct: modelled in Addr.v, pinned by correspondence only',
            'direct check: independent reading of the notations in harness/props/c18.py (spec_parse) + the standard ipaddress module']
@@ -284,7 +285,7 @@ def ip_texts(rng, tier):
     """(text, quad, masklen|None, port|None) over boundary octets x masks x ports"""
     out = []
     quads = [(0, 0, 0, 0), (255, 255, 255, 255), (1, 2, 3, 4), (192, 168, 0, 255), (10, 0, 0, 1), (127, 255, 128, 0)]
-    quads += [tuple(rng.choice(OCTS) for _ in range(4)) for _ in range(6 if tier == 'quick' else 40)]
+    quads += [tuple(rng.choice(OCTS) for _ in range(4)) for _ in range(3 if tier == 'quick' else 40)]
     for q in quads:
         qs = '.'.join(str(x) for x in q)
         out.append((qs, q, None, None))
@@ -292,7 +293,7 @@ def ip_texts(rng, tier):
             out.append(('%s/%d' % (qs, m), q, m, None))
         for p in PORTS:
             out.append(('%s:%d' % (qs, p), q, None, p))
-        for _ in range(12 if tier == 'quick' else 60):
+        for _ in range(8 if tier == 'quick' else 60):
             m, p = rng.choice(MASKS), rng.choice(PORTS + [rng.randrange(65536)])
             out.append(('%s/%d:%d' % (qs, m, p), q, m, p))
     return out
@@ -419,7 +420,7 @@ def cases(rng, tier):
         out.append(case_addr(S(t), 'str'))
     # single-character mutations of valid texts and random strings (the malformed stream)
     base = [t for t in texts if t]
-    for _ in range(1000 if tier == 'quick' else 12000):
+    for _ in range(800 if tier == 'quick' else 8000):
         out.append(case_addr(S(mutate(rng, rng.choice(base))), 'mutated'))
     for _ in range(500 if tier == 'quick' else 4000):
         out.append(case_addr(S(''.join(rng.choice(ALPHABET) for _ in range(rng.randrange(0, 9)))), 'random'))
@@ -468,7 +469,7 @@ def cases(rng, tier):
     for sp in specs:
         out.append(case_addr(sp, 'pool'))
         out.append(case_reparse(sp))
-    for t in rng.sample(texts, 400 if tier == 'quick' else 2000):
+    for t in rng.sample(texts, 300 if tier == 'quick' else 2000):
         out.append(case_reparse(S(t)))
     for l in range(0, 8):
         for _ in range(6):
@@ -478,17 +479,17 @@ def cases(rng, tier):
     # comparisons: every pair of denoted addresses once, plus random pairs of spellings, plus routed ones
     pairs = list(itertools.product(plist, plist))
     if tier == 'quick':
-        pairs = [pq for pq in pairs if pq[0][0] == pq[1][0]] + rng.sample(pairs, 700)
+        pairs = [pq for pq in pairs if pq[0][0] == pq[1][0]] + rng.sample(pairs, 500)
     for (d1, s1), (d2, s2) in pairs:
         out.append(case_cmp(rng.choice(s1), rng.choice(s2)))
-    for _ in range(400 if tier == 'quick' else 5000):
+    for _ in range(300 if tier == 'quick' else 3000):
         d, sps = rng.choice(plist)
         out.append(case_cmp(rng.choice(sps), rng.choice(sps)))
     routed = [S(x) for x in ['5', '5@6', '5@7', '5@0x06', '5@1.2.3.4', '5@1.2.3.4:47808', '6@6', '1:5@6', '1:5', '*@6', '*', '*:*@6', '*:*@7', '1:*@6']]
     for a, b in itertools.product(routed, routed):
         out.append(case_cmp(a, b))
     # == against an un-coerced right-hand side
-    for sp in rng.sample(specs, 30 if tier == 'quick' else 200):
+    for sp in rng.sample(specs, 30 if tier == 'quick' else 100):
         for a in [('str', '5'), ('int', 5), ('bytes', b'\x05'), ('str', '1.2.3.4'), ('tup', '1.2.3.4', 47808), ('str', '5:5'), ('str', '*'), ('str', 'bad'),
                   ('other', 'none'), ('int', 256)]:
             out.append(case_eqc(sp, a))
